@@ -235,6 +235,7 @@ func runC17(e *Engine, r *Report) {
 	c17Tables(e, r)
 	ruleMatchAck(e, r, tbl)
 	ruleSnapshotStatusReported(e, r)
+	ruleRaftPredicates(e, r, "time", "dropRequestVote")
 }
 
 // c17Tables: node.tick advances every table clock on every path; gc reachable.
